@@ -70,9 +70,9 @@ package keyproof
 //@   ensures[C17] rounds: result ==> !isprime(val(N)) && forall i in 0..squareFreeIters :: pow(val(proof.Responses[i]), oddpart(val(N) - 1), val(N)) == roundc(N, challenge, index, i)
 //@   modifies nothing
 //@   loop 0 invariant oddN != nil && fresh(oddN) && val(oddN) > 0 && oddpart(val(oddN)) == oddpart(val(N) - 1)
-//@   loop 0 modifies onlyfresh("BV")
+//@   loop 0 modifies funcfresh("BV")
 //@   loop 1 invariant 0 <= $i && $i < squareFreeIters && oddN != nil && val(oddN) == oddpart(val(N) - 1) && val(oddN) > 0 && forall j in 0..$i :: pow(val(proof.Responses[j]), oddpart(val(N) - 1), val(N)) == roundc(N, challenge, index, j)
-//@   loop 1 modifies onlyfresh("BV")
+//@   loop 1 modifies funcfresh("BV")
 //@   mustfail canary: !result
 
 //@ func primePowerProductVerifyProof
@@ -135,3 +135,9 @@ package keyproof
 //@   loop 2 invariant 0 <= $i && $i <= len(s.RepresentationProofStructure.Rhs) && forall j in 0..$i :: in(proof.Results, s.RepresentationProofStructure.Rhs[j].Secret) && len(proof.Results[s.RepresentationProofStructure.Rhs[j].Secret]) == rangeProofIters && forall i in 0..rangeProofIters :: proof.Results[s.RepresentationProofStructure.Rhs[j].Secret][i] != nil
 //@   loop 3 invariant 0 <= $i && $i <= len(rlist) && forall i in 0..$i :: rlist[i] != nil
 //@   mustfail canary: !result
+
+//@ # a Pedersen commitment that is 0 modulo the group prime makes every reconstructed commitment containing it 0, whatever the responses
+//@ func (*pedersenStructure).verifyProofStructure
+//@   property C17
+//@   nopanic off
+//@   ensures[C17] unit: result ==> proof.Commit != nil && val(proof.Commit) > 0
